@@ -9,14 +9,15 @@ Sparse(s, n) == [k \in 1..n |-> LET S == {i \in 1..Len(s) : s[i][1] = k} IN
 SparseE(j) == [F |-> <<>>, G |-> Sparse(j.G, NPairs(MaxP)), c |-> <<j.c[1], j.c[2]>>]
 Clauses(t) ==
   LET dd == t.d
-      B == [p \in 1..Len(Base) |-> [k \in 1..Len(t.blocks[p]) |-> Sparse(t.blocks[p][k], MaxP)]]
+      B == [p \in 1..NB |-> [k \in 1..Len(t.blocks[p]) |-> Sparse(t.blocks[p][k], MaxP)]]
+      BV == [p \in 1..NB |-> IF p <= Len(Base) THEN Base[p] ELSE Sparse(t.base[p], MaxP)]      \* 5: what the first call returned
       baseOK == \A p \in 1..Len(Base) : Sparse(t.base[p], MaxP) = Base[p]
       obsC == {NormForm(SparseE(t.cons[k].e), t.cons[k].sense) : k \in 1..Len(t.cons)} \ {<<"trivial">>}
       expC == OrthoSet(B, dd)
       c0 == IF baseOK THEN {} ELSE {<<"driver-base-objects", 0>>}
       c1 == IF \A p \in Decomposed(B) : Len(B[p]) = dd THEN {} ELSE {<<"number-of-blocks", 0>>}
-      c2 == IF SumsBack(B) THEN {} ELSE {<<"blocks-do-not-sum-to-the-point", 0>>}
-      c3 == IF OneBlockIdentity(B, dd) THEN {} ELSE {<<"one-block-partition-is-not-the-identity", 0>>}
+      c2 == IF SumsBack(B, BV) THEN {} ELSE {<<"blocks-do-not-sum-to-the-point", 0>>}
+      c3 == IF OneBlockIdentity(B, dd, BV) THEN {} ELSE {<<"one-block-partition-is-not-the-identity", 0>>}
       \* what get_block returned is the stored block, and the same object on every repetition
       c4 == {<<"returned-block-is-not-block-k", i>> : i \in {j \in 1..Len(t.h) : t.h[j].p # 0 /\ (
                  t.out[j] # "ok" \/ Len(B[t.h[j].p]) < t.h[j].k \/ Sparse(t.ret[j], MaxP) # B[t.h[j].p][t.h[j].k])}}
@@ -31,7 +32,9 @@ Clauses(t) ==
             THEN {} ELSE {<<"block-leaf-shared-between-decompositions", 0>>}
       \* real side: every coordinate partition of Z^3 into dd blocks, base leaves on a grid, fresh leaves := real projections
       realBad == {<<f, v, w>> \in CoordPartitions(dd) \X Grid \X Grid :
-                    LET baseVal(p) == LET b == Base[p] IN [c \in 1..Dim |-> RAdd(RMul(b[1], v[c]), RMul(b[2], w[c]))]
+                    LET baseVal4(p) == LET b == Base[p] IN [c \in 1..Dim |-> RAdd(RMul(b[1], v[c]), RMul(b[2], w[c]))]
+                        \* the block returned by the first call is the real projection of the point it was asked for
+                        baseVal(p) == IF p <= Len(Base) THEN baseVal4(p) ELSE Proj(f, t.h[1].k, baseVal4(t.h[1].p))
                         env == [i \in 1..MaxP |->
                                   IF i = 1 THEN v ELSE IF i = 2 THEN w ELSE
                                   LET S == {<<p, k>> \in Decomposed(B) \X (1..(dd - 1)) : i \in leafOf(p, k)} IN
